@@ -41,7 +41,10 @@ def gen(rng, depth, function_ids, maxref=5):
         if j < 0.65:
             return ("bool", rng.random() < 0.5, rng.choice(["boolean", "token"]))
         if j < 0.7:
-            return ("date", (rng.randint(1990, 2030), rng.randint(1, 12), rng.randint(1, 28)))
+            d = (rng.randint(1899, 2040), rng.randint(1, 12), rng.randint(1, 28))
+            if rng.random() < .4:
+                d += (rng.randint(0, 23), rng.randint(0, 59))  # a date literal may carry a time of day; its text names the day
+            return ("date", d)
         return ("ref", (rng.randint(0, maxref), rng.randint(0, maxref)))
     if k < 0.6:
         return ("bin", rng.choice(list(BIN)), gen(rng, depth - 1, function_ids, maxref), gen(rng, depth - 1, function_ids, maxref))
@@ -449,6 +452,8 @@ def expect(t):
         return ("arr", [[expect(x) for x in r] for r in t[1]])
     if k == "bool":
         return ("bool", t[1])
+    if k == "date":
+        return ("date", tuple(t[1][:3]))
     return t
 
 
